@@ -303,3 +303,18 @@ func H_SELF_syncmap_and_globals() {
 	verifObserve("syncmap", had, v, ok, act, loaded, ok2, old == nil, *p.Load())
 	verifReach("end")
 }
+
+func hSelfFirstLast(xs ...int) (int, int) { return xs[0], xs[len(xs)-1] }
+
+// indexing an empty / nil slice panics (variadic call without arguments included)
+func H_SELF_index_empty_slice() {
+	var s []int
+	p1 := verifCatch(func() { _ = s[0] })
+	p2 := verifCatch(func() { hSelfFirstLast() })
+	e := []int{}
+	p3 := verifCatch(func() { _ = e[len(e)-1] })
+	p4 := verifCatch(func() { sort.Ints(s); _ = s[0] })
+	verifObserve("idx", p1, p2, p3, p4)
+	verifAssert(p1 && p2 && p3 && p4, "indexing an empty slice panics")
+	verifReach("end")
+}
